@@ -36,7 +36,7 @@ func (impl Implementation) Dlangb(norm lapack.MatrixNorm, m, n, kl, ku int, ab [
 	}
 
 	switch {
-	case len(ab) < min(m, n+kl)*ldab:
+	case len(ab) < (min(m, n+kl)-1)*ldab+kl+ku+1:
 		panic(shortAB)
 	}
 
